@@ -18,12 +18,30 @@ FAMILIES = {
     "literals": ("MC_Literals", None),
     "names": ("MC_Names", None),
     "jets": ("MC_Jets", None),
+    "deep": ("MC_Deep", None),
+    "shared": ("MC_Shared", None),
 }
 
 
-def spec_hash():
+def spec_hash(module=None, cfg=None):
+    """Hash of the model: the module, everything it EXTENDS (transitively, within spec/) and its cfg."""
+    if module is None:
+        files = sorted(glob.glob(os.path.join(SPEC, "*.tla")) + glob.glob(os.path.join(SPEC, "*.cfg")))
+    else:
+        seen, todo = set(), [module]
+        while todo:
+            m = todo.pop()
+            p = os.path.join(SPEC, m + ".tla")
+            if m in seen or not os.path.exists(p):
+                continue
+            seen.add(m)
+            with open(p) as f:
+                for line in f:
+                    if line.startswith("EXTENDS"):
+                        todo += [x.strip() for x in line[len("EXTENDS"):].split(",")]
+        files = sorted(os.path.join(SPEC, m + ".tla") for m in seen) + [os.path.join(SPEC, (cfg or module) + ".cfg")]
     h = hashlib.sha256()
-    for p in sorted(glob.glob(os.path.join(SPEC, "*.tla")) + glob.glob(os.path.join(SPEC, "*.cfg"))):
+    for p in files:
         with open(p, "rb") as f:
             h.update(p.encode())
             h.update(f.read())
@@ -36,7 +54,7 @@ def tlc_family(prop, fam, tier, seed, extra_env=None):
     module, cfg = FAMILIES[fam]
     cdir = os.path.join(WORK, "cache")
     os.makedirs(cdir, exist_ok=True)
-    key = f"{module}-{cfg or module}-{tier}-{seed}-{spec_hash()}"
+    key = f"{module}-{cfg or module}-{tier}-{seed}-{spec_hash(module, cfg)}"
     cpath = os.path.join(cdir, key + ".json")
     if os.path.exists(cpath) and not os.environ.get("VERIF_NO_CACHE"):
         with open(cpath) as f:
@@ -48,6 +66,14 @@ def tlc_family(prop, fam, tier, seed, extra_env=None):
     stats = {"generated": r.generated, "distinct": r.distinct, "wall": r.wall, "module": module}
     with open(cpath, "w") as f:
         json.dump({"cases": r.cases, "stats": stats}, f)
+    # runs of older versions of the specification are of no use any more
+    prefix = f"{module}-{cfg or module}-{tier}-{seed}-"
+    for old in os.listdir(cdir):
+        if old.startswith(prefix) and old != key + ".json":
+            try:
+                os.remove(os.path.join(cdir, old))
+            except OSError:
+                pass
     return r.cases, stats
 
 
@@ -65,6 +91,9 @@ def issue_property(case, issue, all_issues):
             return "C11"
         if what == "panic":
             return "C06"
+        if case.get("family") == "scoping":
+            # a binding structure wrongly rejected / accepted: the scope rules of C10 (and thereby C04)
+            return case.get("verdict_prop", "C04")
         return "C04"
     if at in ("parameters", "argmap", "alt"):
         return "C12"
@@ -75,6 +104,10 @@ def issue_property(case, issue, all_issues):
     if at in ("instantiate", "commit"):
         if case.get("inst") == "err" or (what == "err" and "rgument" in str(issue.get("msg", "")) and case.get("args_kind")):
             return "C12"
+        if case.get("family") in ("fold", "forwhile", "scoping") and case.get("verdict_prop") and what != "panic":
+            # the families written for one construct (fold, for_while, binding structures): a program of the family that
+            # does not compile contradicts the statement about that construct (and C03 as well)
+            return case["verdict_prop"]
         return "C03"
     if at == "run":
         if what == "satisfy_err":
@@ -191,7 +224,7 @@ def layout_variants(cases, fams, seps):
 
 
 def run_prog_property(prop, fams, tier, seed, rule, assumptions, select=None, extra_cov=None, verdict_fams=(),
-                      expand=None):
+                      expand=None, trace_fams=()):
     """The common shape of a check whose cases are `prog` behaviours of one or more families.
     verdict_fams: families in which a wrong verdict contradicts `prop` itself (default: C01)."""
     out = Outcome(prop, tier, seed, "model_checking")
@@ -209,8 +242,22 @@ def run_prog_property(prop, fams, tier, seed, rule, assumptions, select=None, ex
         raise ToolError(f"no behaviours generated for {prop}")
     if expand:
         all_cases = expand(all_cases)
+    traced = []
+    if trace_fams:
+        # implementation -> specification: record the hook events of an evenly spaced subset of the programs
+        cand = [c for c in all_cases if c.get("family") in trace_fams and c.get("kind") == "prog"
+                and c.get("sep", " ") == " "]
+        want = 1500 if tier == "quick" else 20000
+        stride = max(1, len(cand) // want)
+        for c in cand[(seed % stride)::stride]:
+            c["trace"] = True
+            traced.append(c)
     results = run_replay(prop, all_cases)
     judge(out, prop, all_cases, results)
+    trace_info = None
+    if traced:
+        from . import tracescope
+        trace_info = tracescope.validate(out, prop, traced, results, tier, seed)
     runs = sum(r.get("runs", 0) for r in results.values())
     verd = [v for c in all_cases for v in c.get("verdicts", [])]
     out.coverage = {
@@ -226,6 +273,9 @@ def run_prog_property(prop, fams, tier, seed, rule, assumptions, select=None, ex
         "models": [s["module"] for s in stats],
         "samples": prog_samples(all_cases, results),
     }
+    if trace_info is not None:
+        out.coverage["impl_traces_validated_against_spec"] = trace_info
+        out.coverage["models"] = out.coverage["models"] + ["TraceScopes"]
     if extra_cov:
         out.coverage.update(extra_cov)
     out.assumptions = assumptions
